@@ -619,6 +619,8 @@ class World:
             numel=meta.get('numel'), shape=meta.get('shape'),
             dtype=meta.get('dtype'), **{'async': bool(async_op)},
             owner=_owner(),
+            at=(getattr(_tls, 'ctx', None) or {}).get('n', -1) + 1
+            if isinstance(getattr(_tls, 'ctx', None), dict) else 0,
         )
         if async_op:
             return SimWork(fut)
